@@ -1021,3 +1021,84 @@ pub fn eval_c20_bb(case: &BbCase) -> CaseResult {
     }
     res
 }
+
+// ---------------------------------------------------------------------------
+// C17: a slow up-to-date check of a hub with many dependents must not delay an unrelated chain
+
+#[derive(Debug, Clone, Serialize, Deserialize)]
+pub struct HubCase {
+    /// number of dependents of the hub (34..=90: more messages than one inbox holds)
+    pub dependents: usize,
+}
+
+pub fn hub_case() -> impl Strategy<Value = HubCase> {
+    (34usize..=90).prop_map(|dependents| HubCase { dependents })
+}
+
+pub fn eval_hub(case: &HubCase) -> CaseResult {
+    let sb = Sandbox::new("c17hub");
+    let n = case.dependents;
+    let mut targets = Map::new();
+    targets.insert(
+        "hub".into(),
+        json!({
+            "build": build_script("hub", ""),
+            "input": [{"cmd_stdout": "touch \"$ZV_ROOT/h.checking\"; sleep 2; rm -f \"$ZV_ROOT/h.checking\"; echo v"}],
+        }),
+    );
+    let mut all: Vec<String> = vec![];
+    for i in 0..n {
+        targets.insert(format!("d{}", i), json!({"dependencies": ["hub"], "build": build_script(&format!("d{}", i), "")}));
+        all.push(format!("d{}", i));
+    }
+    targets.insert("u1".into(), json!({"build": build_script("u1", "sleep 0.5")}));
+    targets.insert(
+        "u2".into(),
+        json!({
+            "dependencies": ["u1"],
+            "build": "if [ -e \"$ZV_ROOT/h.checking\" ]; then w=during-check; else w=after-check; fi\necho \"S u2 $$ $w\" >> \"$ZV_TRACE\"\necho \"F u2 $$\" >> \"$ZV_TRACE\"",
+        }),
+    );
+    all.push("u2".into());
+    targets.insert("all".into(), json!({ "dependencies": all }));
+    write_project(&sb.path("proj"), &json!({ "targets": targets }));
+    let mut res = CaseResult {
+        nontrivial: true,
+        fingerprint: format!("hub|{}", n / 8),
+        classes: vec![format!("dependents-{}0s", n / 10)],
+        sample: json!({"hub_dependents": n, "hub_input": "cmd_stdout taking 2 s", "unrelated_chain": "u1 (0.5 s) -> u2"}),
+        ..Default::default()
+    };
+    let args = vec!["all".to_string()];
+    let first = run_zinoma(&sb, &sb.path("proj"), &args, &[], Duration::from_secs(60), false);
+    if !first.success() {
+        res.inconclusive = Some(format!("first build failed: {:?}", first.status));
+        return res;
+    }
+    sb.clear_trace();
+    let _ = std::fs::remove_file(sb.path("h.checking"));
+    let second = run_zinoma(&sb, &sb.path("proj"), &args, &[], Duration::from_secs(60), false);
+    if second.timed_out {
+        res.inconclusive = Some("still busy at wall budget".into());
+        return res;
+    }
+    let trace = sb.trace();
+    let u2 = trace.iter().find(|t| t.kind == 'S' && t.id == "u2");
+    match u2 {
+        Some(t) if t.extra.trim() == "after-check" => {
+            let msg = format!(
+                "u2 only depends on u1 (0.5 s), yet it started after the 2 s up-to-date check of the unrelated target hub ({} dependents) had ended",
+                n
+            );
+            res.signature = Some("bb:c17:hub-check-blocks".into());
+            res.replay = json!({"engine": "BB-c17hub", "case": serde_json::to_value(case).unwrap(), "message": msg,
+                "trace_head": trace.iter().take(6).map(|t| format!("{} {} {}", t.kind, t.id, t.extra)).collect::<Vec<_>>()});
+            res.violation = Some(msg);
+        }
+        Some(_) => {}
+        None => {
+            res.inconclusive = Some(format!("u2 did not run in the second invocation (exit {:?})", second.code()));
+        }
+    }
+    res
+}
